@@ -471,11 +471,11 @@ def drivers(tier):
     if tier == 'quick':
         return {'defer': (DeferDriver(max_queue=4, max_faults=1),
                           dict(max_states=200000, time_budget=300))}
-    d1 = DeferDriver(max_queue=5, max_faults=1)
-    d1.name = 'defer-queue5'
+    d1 = DeferDriver(max_queue=4, max_faults=1)
+    d1.name = 'defer-queue4'
     d2 = DeferDriver(max_queue=2, max_faults=2)
     d2.name = 'defer-two-faults'
-    return {'defer-queue5': (d1, dict(max_states=2000000, time_budget=1500)),
+    return {'defer-queue4': (d1, dict(max_states=2000000, time_budget=1500)),
             'defer-two-faults': (d2, dict(max_states=2000000,
                                           time_budget=1500))}
 
